@@ -24,8 +24,9 @@ def demo(tag):
     b = open(os.path.join(src, "build.sh")).read()
     orig = re.search(r"/tmp/s_%s\b" % pid, b)
     b = re.sub(r"/tmp/s_%s(?!_out)" % pid, wt, b)
-    open("/tmp/seval_build.sh", "w").write(b)
-    rc, o = sh("cd %s && sh /tmp/seval_build.sh" % src, timeout=600)
+    open(os.path.join(src, "_seval_build.sh"), "w").write(b)
+    rc, o = sh("cd %s && sh ./_seval_build.sh" % src, timeout=600)
+    os.remove(os.path.join(src, "_seval_build.sh"))
     exes = [f for f in os.listdir(src) if os.access(os.path.join(src, f), os.X_OK) and not f.endswith(".sh")]
     exe = None
     for cand in ("demo", "a.out"):
